@@ -20,6 +20,15 @@ var (
 	vfSigmaSmall = []string{"a", "", "---", "/-/-/-/", "[TestA - 2]", "[TestQ - 7]", "$1", "--- "}
 )
 
+// vfBigValues: values around the sizes at which readers and writers change
+// behaviour (4 KiB and 64 KiB buffers, bufio.Scanner's default token limit).
+func vfBigValues() []string {
+	l4k := strings.Repeat("x", 4097)
+	l64k := strings.Repeat("y", 65537)
+	many := strings.Repeat("a line of a big value 0123456789\n", 200) + "end"
+	return []string{l4k, l64k, "head\n" + l64k + "\ntail", many, many + "\n---\n" + l4k}
+}
+
 // vfNear lists near-misses of a special token: what a reader or writer that is
 // slightly too tolerant (trimming, prefix/suffix matching, doubling) would confuse with it.
 func vfNear(tok string) []string {
